@@ -577,7 +577,7 @@ def check_C08(ctx):
 
 def check_C02(ctx):
     return run_message_property(ctx, dict(
-        theorems=["C02_value_rules", "C02_field", "C02_tag"],
+        theorems=["C02_value_rules", "C02_field", "C02_tag", "C02_loop_is_dispatch", "C02_flat_message"],
         suites=lambda c: [("decv", ["decv", c.seed, _n(c, 2500, 60000)])],
         prop={"dec": lambda r: r["ist"] == "ok" and r["ost"] == "ok" and r["flags"].get("c02") == "ok"},
         tie={"dec": tie_dec_val}, spec={"dec": spec_dec}, nontrivial=nontrivial_any, rule=DEC_RULE + " (valid stream only); oracle: proto.Unmarshal of the same bytes"))
@@ -595,7 +595,7 @@ def check_C10(ctx):
 
 def check_C04(ctx):
     return run_message_property(ctx, dict(
-        theorems=["C04_varint_in_bounds", "C04_bytes_in_bounds"],
+        theorems=["C04_varint_in_bounds", "C04_bytes_in_bounds", "C04_cursor_progress", "C04_skip_progress", "C04_reader_progress"],
         suites=lambda c: [("decb", ["decb", c.seed, _n(c, 3000, 100000)])] +
                          (fresh_suites(c, [("deep", ["deep", c.seed]), ("decb", ["decb", c.seed + 5, _n(c, 1500, 30000)])]) or [("deep", ["deep", c.seed])]),
         prop={"dec": lambda r: r["ist"] != "PANIC" and "input-modified" not in r["flags"] and "slow" not in r["flags"]},
